@@ -24,7 +24,27 @@ type step struct {
 type gCase struct {
 	Kind  string   `json:"kind"` // "g"
 	Steps []step   `json:"steps"`
-	Codes []string `json:"codes"` // concretisation: abstract code id -> code
+	Codes []string `json:"codes"` // concretisation: abstract code id -> code (for reading; invalid UTF-8 is not exact here)
+	Bytes [][]int  `json:"bytes"` // the same codes byte by byte (authoritative on replay)
+}
+
+// withBytes fills Bytes from Codes (when recording) or Codes from Bytes (when replaying a stored case).
+func (gc *gCase) withBytes() *gCase {
+	if len(gc.Bytes) == len(gc.Codes) && len(gc.Bytes) > 0 {
+		for i, b := range gc.Bytes {
+			bs := make([]byte, len(b))
+			for j, x := range b {
+				bs[j] = byte(x)
+			}
+			gc.Codes[i] = string(bs)
+		}
+		return gc
+	}
+	gc.Bytes = make([][]int, len(gc.Codes))
+	for i, s := range gc.Codes {
+		gc.Bytes[i] = toInts(s)
+	}
+	return gc
 }
 
 type gMismatch struct {
